@@ -17,7 +17,10 @@ command it received, in order, also after the client gave up waiting). A request
 abstracted: between two requests every outstanding answer has arrived.
 
 `keepOnTimeout = false` is the code; `true` is the variant in which a timed-out
-connection is returned to the pool (kept for the witness theorem).
+connection is returned to the pool (kept for the witness theorem). The state also logs,
+leader side, every command that was written to a connection: the leader executes each.
+Only timeouts are modelled as failures; a pooled connection that is already dead (the
+reason the forced-new attempt exists) never reaches the leader and is not modelled.
 Core Lean only.
 -/
 import RqModel.Model.Util
@@ -28,6 +31,7 @@ structure Op where
   tag  : Nat          -- identifies the request (and the response that answers it)
   slow : Bool         -- the leader answers after the client's timeout
   broadcast : Bool := false   -- BroadcastHWM with retries = 0: a single attempt, no forced-new connection
+  retries : Nat := 0  -- the caller's `retries` argument
 deriving DecidableEq, Repr
 
 inductive Res where
@@ -37,6 +41,7 @@ deriving DecidableEq, Repr
 
 structure PState where
   pool : List (List Nat) := []     -- pooled connections (FIFO), each with its pending responses
+  executed : List Nat := []        -- leader side: the commands it received and executed, in order
 deriving DecidableEq, Repr
 
 /-- one write-command / read-response exchange on a connection; returns the result
@@ -52,41 +57,68 @@ def putBack (pool : List (List Nat)) : Option (List Nat) → List (List Nat)
   | some c => pool ++ [c]
   | none => pool
 
-/-- `Client.retry` with `retries = 0`: pooled (or new) connection, then a forced-new one -/
-def doOp (keepOnTimeout : Bool) (st : PState) (op : Op) : Res × PState :=
-  let (c, rest) := match st.pool with
-    | c :: r => (c, r)
-    | [] => ([], [])
-  match attempt keepOnTimeout c op with
-  | (.ok t, back) => (.ok t, { pool := putBack rest back })
-  | (.timeout, back) =>
-    if op.broadcast then (.timeout, { pool := putBack rest back })
-    else
-      let r2 := attempt keepOnTimeout [] op
-      (r2.1, { pool := putBack (putBack rest back) r2.2 })
+/-- The attempts `Client.retry` is prepared to make, `true` = on a forced-new
+connection, `false` = on a connection from the pool (new when the pool is empty).
+`effectiveRetries := max(1, maxRetries)` pooled attempts, then one forced-new attempt.
+`resendAfterTimeout = false` is the code: with `retries = 0` a request whose answer
+did not arrive in time is NOT sent again (the leader may be executing it);
+`true` is the behaviour before the `fix:` commit (kept for the witness). -/
+def plan (resendAfterTimeout : Bool) (op : Op) : List Bool :=
+  if op.broadcast then [false]
+  else if op.retries = 0 then (if resendAfterTimeout then [false, true] else [false])
+  else List.replicate op.retries false ++ [true]
 
-def runOps (keepOnTimeout : Bool) : PState → List Op → List Res
-  | _, [] => []
+/-- the connection an attempt uses, and what remains in the pool -/
+def takeConn (fresh : Bool) (pool : List (List Nat)) : List Nat × List (List Nat) :=
+  if fresh then ([], pool) else
+  match pool with
+  | c :: r => (c, r)
+  | [] => ([], [])
+
+/-- every attempt writes the command, so the leader executes it — also when the
+client then reads somebody else's answer or gives up waiting -/
+def runAttempts (keepOnTimeout : Bool) (op : Op) : List Bool → PState → Res × PState
+  | [], st => (.timeout, st)
+  | fresh :: more, st =>
+    let cr := takeConn fresh st.pool
+    let a := attempt keepOnTimeout cr.1 op
+    let st' : PState := { pool := putBack cr.2 a.2, executed := st.executed ++ [op.tag] }
+    match a.1 with
+    | .ok t => (.ok t, st')
+    | .timeout => if more.isEmpty then (.timeout, st') else runAttempts keepOnTimeout op more st'
+
+def doOp (keepOnTimeout resendAfterTimeout : Bool) (st : PState) (op : Op) : Res × PState :=
+  runAttempts keepOnTimeout op (plan resendAfterTimeout op) st
+
+def runOps (keepOnTimeout resendAfterTimeout : Bool) : PState → List Op → List Res × PState
+  | st, [] => ([], st)
   | st, op :: ops =>
-    let r := doOp keepOnTimeout st op
-    r.1 :: runOps keepOnTimeout r.2 ops
+    let r := doOp keepOnTimeout resendAfterTimeout st op
+    let rest := runOps keepOnTimeout resendAfterTimeout r.2 ops
+    (r.1 :: rest.1, rest.2)
 
 /-! ## line protocol
-`reset` → `ok`;  `op <tag> <slow 0|1>` / `hwm <tag> <slow 0|1>` → `ok:<tag>` | `timeout`   (the code's policy)
+`reset` → `ok`;  `op <tag> <slow 0|1> <retries>` / `hwm <tag> <slow 0|1> 0` → `ok:<tag>` | `timeout`   (the code's policy)
+`executed` → the leader-side database execution log `t,t,…` of the non-broadcast requests (`-` when empty)
 -/
 structure DState where
   st : PState := {}
+  bcast : List Nat := []     -- tags of broadcasts (they reach the CDC channel, not the database)
 
 def step (d : DState) (line : String) : DState × String :=
   match words line with
   | ["reset"] => ({}, "ok")
-  | [k, t, s] =>
-    match t.toNat? with
-    | some t =>
+  | ["executed"] =>
+    let ex := d.st.executed.filter (fun t => !d.bcast.contains t)
+    (d, if ex.isEmpty then "-" else joinWith "," (ex.map toString))
+  | [k, t, s, rt] =>
+    match t.toNat?, rt.toNat? with
+    | some t, some rt =>
       if (k != "op" && k != "hwm") || (s != "0" && s != "1") then (d, "bad-op") else
-      let r := doOp false d.st { tag := t, slow := s == "1", broadcast := k == "hwm" }
-      ({ st := r.2 }, match r.1 with | .ok x => s!"ok:{x}" | .timeout => "timeout")
-    | none => (d, "bad-op")
+      let r := doOp false false d.st { tag := t, slow := s == "1", broadcast := k == "hwm", retries := rt }
+      ({ st := r.2, bcast := if k == "hwm" then t :: d.bcast else d.bcast },
+        match r.1 with | .ok x => s!"ok:{x}" | .timeout => "timeout")
+    | _, _ => (d, "bad-op")
   | _ => (d, "bad-op")
 
 def init : DState := {}
